@@ -292,7 +292,20 @@ class ProvXMLSerializer(Serializer):
                 )
                 attributes.append((PROV["type"], value))
 
+            # A membership listing several entities stands for one membership
+            # relation per entity (the PROV-JSON reader does the same).
+            extra_members = []
+            if rec_type == PROV_MEMBERSHIP:
+                members = [a for a in attributes if a[0] == PROV_ATTR_ENTITY]
+                for member in members[1:]:
+                    attributes.remove(member)
+                    extra_members.append(member[1])
+
             rec = bundle.new_record(rec_type, rec_id, attributes)
+
+            for member in extra_members:
+                collections = [a[1] for a in attributes if a[0] == PROV_ATTR_COLLECTION]
+                bundle.membership(collections[0] if collections else None, member)
 
             # Add the actual type in case a base type has been used.
             if rec_type != q_prov_name:
